@@ -19,6 +19,16 @@ CHECKS = {
         "float64 / label-coded values only; bounds <= 4 dims, <= 4 items.",
         "DESIGN.md C01",
     ),
+    "C02": (
+        "exploration",
+        "Hypothesis-generated system graphs with exact perturbations against an independent Fraction-arithmetic balance model",
+        "Systems with arbitrary process graphs, per-flow dimension subsets/orders and stock attachments are generated with exact "
+        "integer values, optionally closed exactly and perturbed in one entry just below/above the explicit or default tolerance, "
+        "with NaN injection and both raise_error modes; the verdict of check_mass_balance / check_flows (exception or WARNING "
+        "record, text not inspected) is compared with a balance recomputed with Fractions from the descriptor.",
+        "Trusts the balance model in props/c02_massbalance.py; cases within 4x a-priori float noise of the threshold are discarded and counted.",
+        "DESIGN.md C02",
+    ),
     "C03": (
         "exploration",
         "Hypothesis-generated stock configurations checked against the conservation invariant with independently derived interval lengths",
